@@ -1,7 +1,12 @@
 import KcpVerif.Model.Kcp
+import KcpVerif.Lemmas.KcpLiveFlush
+import KcpVerif.Lemmas.KcpLive
+import KcpVerif.Lemmas.KcpState
+import KcpVerif.Lemmas.KcpTimer
+import KcpVerif.Lemmas.KcpMove
 /-! C02 — eventual delivery: a healed network always drains the backlog. -/
 namespace KcpVerif.Props
-open KcpVerif KcpVerif.Gen KcpVerif.Kcp
+open KcpVerif KcpVerif.Gen KcpVerif.Kcp KcpVerif.Live
 
 /-- cumulative acknowledgement: `una` removes exactly the leading segments it covers, so the
 send buffer only ever shrinks from the front and what remains is a suffix -/
@@ -14,5 +19,390 @@ theorem C02_parseUna_suffix (k : Kcp) (una : U32) :
   induction l with
   | nil => simp [unaCount]
   | cons s rest ih => unfold unaCount; split <;> simp <;> omega
+
+/-! ### `fastack_cleared`: branch analysis of phase 5 (`xmitOne`) for a segment sent before
+
+`cause`, `segAfter`, `emit` (Lemmas/KcpXmit.lean) are the decision cascade, the segment left in
+`snd_buf` and the write into the output buffer; `xmitOne_eq` proves `xmitOne` equal to them. -/
+
+/-- For an un-acked segment that was sent before (`xmit > 0`) and whose timer is due, for EVERY
+fast-resend setting, `fastack` value and admission count: the segment is sent (by the fast, early or
+timeout branch; `f := emit …`, `xmit` incremented); if it is the timeout branch, `fastack` is reset
+to 0 and the loss is counted; and the sentinel `fastack = 0xFFFFFFFF` always ends in the timeout
+branch — it never suppresses the retransmission. -/
+theorem C02_fastack_cleared (now resent : U32) (wnd : BitVec 16) (una : U32) (newSegs : Nat) (st : XmitSt) (s : Seg)
+    (ha : s.acked = false) (hx : s.xmit ≠ 0) (hd : itimediff now s.resendts ≥ 0) :
+    ∃ s', (xmitOne now resent wnd una newSegs st s).done = st.done ++ [s'] ∧
+      (xmitOne now resent wnd una newSegs st s).f = emit st.f s' ∧
+      s'.xmit = s.xmit + 1 ∧ s'.ts = now ∧ s'.sn = s.sn ∧ s'.data = s.data ∧ s'.acked = false ∧
+      (cause now resent newSegs s = .fast ∨ cause now resent newSegs s = .early ∨ cause now resent newSegs s = .timeout) ∧
+      (cause now resent newSegs s = .timeout →
+        s'.fastack = 0 ∧ (xmitOne now resent wnd una newSegs st s).lost = st.lost + 1) ∧
+      (s.fastack = 0xFFFFFFFF#32 → cause now resent newSegs s = .timeout) := by
+  have hc := cause_due now resent newSegs s hx hd
+  have hne : cause now resent newSegs s ≠ .none := by
+    rcases hc with h | h | h <;> rw [h] <;> exact fun c => by cases c
+  refine ⟨segAfter now resent wnd una newSegs st.f.k.rx_rto st.f.k.nodelay s, xmitOne_done _ _ _ _ _ _ _, ?_, ?_, ?_,
+    (segAfter_id _ _ _ _ _ _ _ _).1, (segAfter_id _ _ _ _ _ _ _ _).2.1, ?_, hc, ?_, fun hf => cause_sentinel _ _ _ _ hx hf hd⟩
+  · rw [xmitOne_f, if_neg (fun h => h.elim (by simp [ha]) hne)]
+  · rw [segAfter_sent _ _ _ _ _ _ _ _ ha hne]
+    rcases hc with h | h | h <;> rw [h] <;> rfl
+  · rw [segAfter_sent _ _ _ _ _ _ _ _ ha hne]; rfl
+  · rw [segAfter_acked, ha]
+  · intro h
+    constructor
+    · rw [segAfter_sent _ _ _ _ _ _ _ _ ha hne, h]; rfl
+    · rw [xmitOne_eq, if_neg (by simp [ha])]
+      simp only [h, ↓reduceIte]
+
+/-- non-vacuity: a segment carrying the sentinel whose timer is due -/
+example : ∃ s : Seg, s.acked = false ∧ s.xmit ≠ 0 ∧ itimediff 1000 s.resendts ≥ 0 ∧ s.fastack = 0xFFFFFFFF#32 :=
+  ⟨{ xmit := 2, resendts := 900, fastack := 0xFFFFFFFF#32 }, by decide⟩
+
+/-! ### `retx_armed` -/
+
+/-- A full flush at `now`, any state.  Let `buf` be the send buffer after admission (phase 4; it
+extends the old `snd_buf`).
+1. the new `snd_buf` is `buf` with `segAfter` applied to every element (same order, same `sn`s);
+2. every un-acked segment sent before whose timer is due takes a sending branch — whatever the
+   windows (`rmt_wnd`, `cwnd`, `snd_wnd`) are — and, if the flush does not panic, its bytes
+   (header with the new `ts`/`wnd`/`una`, then data) are in the output;
+3. after the flush no un-acked segment is due: `itimediff now s'.resendts < 0`, and the ones
+   transmitted by this flush have `itimediff s'.resendts now = s'.rto` exactly, provided
+   `0 < s'.rto < 2^31` (explicit side condition: beyond it the signed comparison is meaningless);
+4. the returned interval is at most `interval` and at most every positive `resendts − now`. -/
+theorem C02_retx_armed (k : Kcp) (now : U32) :
+    (∃ t, (flAd k now).buf = k.snd_buf ++ t) ∧
+    (flush k true now).k.snd_buf =
+      (flAd k now).buf.map (segAfter now (resentOf k) (wndUnused k) k.rcv_nxt (flAd k now).count k.rx_rto k.nodelay) ∧
+    (∀ s ∈ (flAd k now).buf, s.acked = false → s.xmit ≠ 0 → itimediff now s.resendts ≥ 0 →
+      cause now (resentOf k) (flAd k now).count s ≠ .none ∧
+      ((flush k true now).panic = false → ∃ pre post, (flush k true now).outs.flatten =
+        pre ++ segBytes (segAfter now (resentOf k) (wndUnused k) k.rcv_nxt (flAd k now).count k.rx_rto k.nodelay s) ++ post)) ∧
+    (∀ s' ∈ (flush k true now).k.snd_buf, s'.acked = false → 0 < s'.rto.toNat → s'.rto.toNat < 2 ^ 31 →
+      itimediff now s'.resendts < 0 ∧
+      (s'.ts = now ∧ s'.xmit ≠ 0 → s'.resendts = now + s'.rto → itimediff s'.resendts now = s'.rto.toNat)) ∧
+    (flush k true now).interval ≤ k.interval ∧
+    (∀ s' ∈ (flush k true now).k.snd_buf, s'.acked = false → itimediff s'.resendts now > 0 →
+      ((flush k true now).interval.toNat : Int) ≤ itimediff s'.resendts now) := by
+  obtain ⟨pw, tp, h4⟩ := flF4_frame k now
+  have hX := flX_full k now
+  have hres : resentOf (flF4 k now).k = resentOf k := by rw [h4]; rfl
+  have hrto : (flF4 k now).k.rx_rto = k.rx_rto := by rw [h4]
+  have hnd : (flF4 k now).k.nodelay = k.nodelay := by rw [h4]
+  have hbuf : (flF4 k now).k.snd_buf = (flAd k now).buf := by rw [h4]
+  have hint : (flF4 k now).k.interval = k.interval := by rw [h4]
+  have hdone := hX.done
+  have hnear := hX.next_near
+  have hsent := hX.sent
+  have hle := hX.next_le
+  simp only [hres, hrto, hnd, hbuf, hint, List.nil_append] at hdone hnear hsent hle
+  obtain ⟨_, _, st, ss, cw, inc, hk⟩ := flush_frame k true now
+  have hsb : (flush k true now).k.snd_buf = (flX k true now).done := by rw [hk]
+  have hiv : (flush k true now).interval = (flX k true now).next := by rw [flush_eq]
+  refine ⟨flAd_prefix k now, by rw [hsb, hdone], ?_, ?_, by rw [hiv]; exact hle, ?_⟩
+  · intro s hs ha hx hd
+    have hne : cause now (resentOf k) (flAd k now).count s ≠ .none := by
+      rcases cause_due now (resentOf k) (flAd k now).count s hx hd with h | h | h <;> rw [h] <;>
+        exact fun c => by cases c
+    refine ⟨hne, fun hp => ?_⟩
+    rw [flush_panic] at hp
+    obtain ⟨pre, post, hw⟩ := hsent s hs ha hne ((grow_F5 k true now).noPanic hp)
+    obtain ⟨t, ht⟩ := (grow_F5 k true now).liveWire
+    exact ⟨pre, post ++ t, by rw [flush_wire, ht, hw]; simp⟩
+  · intro s' hs' ha' h0 h31
+    rw [hsb, hdone] at hs'
+    obtain ⟨s, hs, rfl⟩ := List.mem_map.mp hs'
+    rw [segAfter_acked] at ha'
+    by_cases hc : cause now (resentOf k) (flAd k now).count s = .none
+    · rw [segAfter_none _ _ _ _ _ _ _ _ (Or.inr hc)]
+      refine ⟨(cause_none _ _ _ _ hc).2, fun _ hr => ?_⟩
+      rw [segAfter_none _ _ _ _ _ _ _ _ (Or.inr hc)] at h0 h31
+      rw [hr]; exact (itimediff_add_self now s.rto h31).1
+    · have hr : (segAfter now (resentOf k) (wndUnused k) k.rcv_nxt (flAd k now).count k.rx_rto k.nodelay s).resendts =
+          now + (segAfter now (resentOf k) (wndUnused k) k.rcv_nxt (flAd k now).count k.rx_rto k.nodelay s).rto := by
+        rw [segAfter_sent _ _ _ _ _ _ _ _ ha' hc]
+        exact retimed_resendts _ _ _ _ _ hc
+      rw [hr]
+      have := itimediff_add_self now _ h31
+      exact ⟨by rw [this.2]; omega, fun _ _ => this.1⟩
+  · intro s' hs' ha' hd
+    rw [hsb, hdone] at hs'
+    obtain ⟨s, hs, rfl⟩ := List.mem_map.mp hs'
+    rw [segAfter_acked] at ha'
+    have h := hnear s hs ha' hd
+    rw [ofInt_itimediff, BitVec.le_def] at h
+    rw [hiv, ← itimediff_pos_toNat _ _ hd]
+    exact Int.ofNat_le.mpr h
+
+/-- a segment transmitted by a full flush has its timer exactly `rto` ahead (the part of 3 that
+identifies "transmitted by this flush" through `segAfter`) -/
+theorem C02_retx_armed_sent_timer (k : Kcp) (now : U32) (s : Seg) (hs : s ∈ (flAd k now).buf) (ha : s.acked = false)
+    (hc : cause now (resentOf k) (flAd k now).count s ≠ .none) :
+    (segAfter now (resentOf k) (wndUnused k) k.rcv_nxt (flAd k now).count k.rx_rto k.nodelay s) ∈ (flush k true now).k.snd_buf ∧
+    (segAfter now (resentOf k) (wndUnused k) k.rcv_nxt (flAd k now).count k.rx_rto k.nodelay s).resendts =
+      now + (segAfter now (resentOf k) (wndUnused k) k.rcv_nxt (flAd k now).count k.rx_rto k.nodelay s).rto := by
+  refine ⟨?_, ?_⟩
+  · rw [(C02_retx_armed k now).2.1]; exact List.mem_map.mpr ⟨s, hs, rfl⟩
+  · rw [segAfter_sent _ _ _ _ _ _ _ _ ha hc]; exact retimed_resendts _ _ _ _ _ hc
+
+/-! ### `ack_owed_sent`
+
+`inStep` (Lemmas/KcpInput.lean) is the body of one iteration of `inputLoop` for a segment that passed
+the header checks (`inputLoop_succ` proves the unrolling by `rfl`). -/
+
+/-- Every PUSH whose `sn` is below the top of the receive window — new, duplicate, or already
+delivered (`sn < rcv_nxt`) — is put on the ack list, whatever else the step does; a PUSH at or
+above the top is not (and leaves the whole receive side alone); no later step of the same `Input`
+removes an entry. -/
+theorem C02_ack_owed_listed (regular : Bool) (conv : U32) (cmd frg : BitVec 8) (wnd : BitVec 16) (ts sn una : U32)
+    (payload : Bytes) (st : InLoop) (hc : cmd.toNat = IKCP_CMD_PUSH) :
+    (itimediff sn (st.k.rcv_nxt + st.k.rcv_wnd) < 0 →
+      (inStep regular conv cmd frg wnd ts sn una payload st).k.acklist = st.k.acklist ++ [⟨sn, ts⟩]) ∧
+    (¬ itimediff sn (st.k.rcv_nxt + st.k.rcv_wnd) < 0 →
+      (inStep regular conv cmd frg wnd ts sn una payload st).k.acklist = st.k.acklist) ∧
+    (∀ fuel data, ∃ t, (inputLoop regular fuel data st).k.acklist = st.k.acklist ++ t) := by
+  refine ⟨inStep_push_acklist regular conv cmd frg wnd ts sn una payload st hc, fun hw => ?_,
+    fun fuel data => inputLoop_acklist_mono regular fuel data st⟩
+  rw [inStep_push_refused regular conv cmd frg wnd ts sn una payload st hc hw]
+  exact (inPre_rcv regular wnd una st.k).2.2.1
+
+/-- A flush of either type with a non-empty ack list empties it and — the jitter filter always
+keeps the LAST entry (`total − 1 = i`) — writes at least the ACK header of the last entry, carrying
+`una = rcv_nxt` and the current `wnd_unused`; unless the flush panics (buffer too small, C05/C10)
+that header is in the output. -/
+theorem C02_ack_owed_sent (k : Kcp) (full : Bool) (now : U32) (a : Ack) (hl : k.acklist.getLast? = some a) :
+    (flush k full now).k.acklist = [] ∧
+    ((flush k full now).panic = false → ∃ pre post, (flush k full now).outs.flatten =
+      pre ++ encodeHdr k.conv (BitVec.ofNat 8 IKCP_CMD_ACK) 0 (wndUnused k) a.ts a.sn k.rcv_nxt 0 ++ post) := by
+  constructor
+  · obtain ⟨_, _, _, _, _, _, h⟩ := flush_frame k full now
+    rw [h]
+  · intro hp
+    rw [flush_panic] at hp
+    have hg := grow_ack_end k full now
+    have hl' := ackFlush_last (wndUnused k) k.rcv_nxt k.acklist.length k.acklist 0
+      ⟨{ k := k }, { cmd := BitVec.ofNat 8 IKCP_CMD_ACK }⟩ a hl (by omega) (hg.noPanic hp)
+    obtain ⟨pre, hw⟩ := hl'.1
+    obtain ⟨post, hpost⟩ := hg.keeps hw
+    exact ⟨pre, post, by rw [flush_wire, hpost]⟩
+
+/-- non-vacuity: two owed acks, the first one stale (`sn 4 < rcv_nxt 6`) and dropped by the filter,
+the last one always sent, with `una = rcv_nxt = 6` -/
+example : (flush { Kcp.new 1 with acklist := [⟨4, 8⟩, ⟨5, 9⟩], rcv_nxt := 6 } false 0).outs =
+    [encodeHdr 1 82 0 32 9 5 6 0] := by decide
+
+/-- the ack list is always flushed, even with an empty list nothing remains -/
+theorem C02_flush_empties_acklist (k : Kcp) (full : Bool) (now : U32) : (flush k full now).k.acklist = [] := by
+  obtain ⟨_, _, _, _, _, _, h⟩ := flush_frame k full now
+  rw [h]
+
+/-- `Input` itself flushes as soon as the ack list reaches `mtu / 24` entries (and at once with
+`ackNoDelay`): after every `Input` that parsed its datagram to the end (`ret = 0`, no panic) the
+list is empty or shorter than `mtu / 24`. -/
+theorem C02_ack_owed_input_flushes (k : Kcp) (data : Bytes) (regular ackNoDelay : Bool) (now : U32)
+    (hr : (input k data regular ackNoDelay now).ret = 0) (hp : (input k data regular ackNoDelay now).panic = false) :
+    (input k data regular ackNoDelay now).k.acklist = [] ∨
+    ((input k data regular ackNoDelay now).k.acklist.length <
+        ((input k data regular ackNoDelay now).k.mtu / u32 IKCP_OVERHEAD).toNat ∧
+      (ackNoDelay = true → False)) := by
+  rw [input_eq] at hr hp ⊢
+  by_cases h1 : data.length < IKCP_OVERHEAD
+  · rw [if_pos h1] at hr; simp at hr
+  · rw [if_neg h1] at hr hp ⊢
+    by_cases h2 : (inSt k data regular).panic = true
+    · rw [if_pos h2] at hp; simp at hp
+    · rw [if_neg h2] at hr hp ⊢
+      by_cases h3 : (inSt k data regular).ret < 0
+      · rw [if_pos h3] at hr; simp only [] at hr; omega
+      · rw [if_neg h3]
+        by_cases h4 : (inSt k data regular).flushSeg = true
+        · rw [if_pos h4]; exact Or.inl (C02_flush_empties_acklist _ _ _)
+        · rw [if_neg h4]
+          by_cases h5 : (inK2 k data regular now).acklist.length ≥ ((inK2 k data regular now).mtu / u32 IKCP_OVERHEAD).toNat
+          · rw [if_pos h5]; exact Or.inl (C02_flush_empties_acklist _ _ _)
+          · rw [if_neg h5]
+            by_cases h6 : ackNoDelay = true ∧ (inK2 k data regular now).acklist.length > 0
+            · rw [if_pos h6]; exact Or.inl (C02_flush_empties_acklist _ _ _)
+            · rw [if_neg h6]
+              by_cases hl : (inK2 k data regular now).acklist = []
+              · exact Or.inl hl
+              · exact Or.inr ⟨Nat.lt_of_not_le h5, fun hnd => h6 ⟨hnd, List.length_pos_iff.mpr hl⟩⟩
+
+/-! ### `una_cumulative` -/
+
+/-- `parse_una(u)` + `shrink_buf`: exactly the leading segments with `itimediff u sn > 0` are
+removed, the new head (if any) is not covered by `u`, and `snd_una` becomes the head's `sn` or
+`snd_nxt`.  Every valid incoming segment of ANY command does this first (`inPre` is the common
+prologue of `inStep`), so a lost final ACK is repaired by the `una` of any later segment. -/
+theorem C02_una_cumulative (k : Kcp) (u : U32) :
+    (shrinkBuf (parseUna k u).1).snd_buf = k.snd_buf.dropWhile (fun s => decide (itimediff u s.sn > 0)) ∧
+    (match (shrinkBuf (parseUna k u).1).snd_buf with
+      | s :: _ => (shrinkBuf (parseUna k u).1).snd_una = s.sn ∧ ¬ itimediff u s.sn > 0
+      | [] => (shrinkBuf (parseUna k u).1).snd_una = k.snd_nxt) ∧
+    (∀ regular wnd, (inPre regular wnd u k).snd_buf = k.snd_buf.dropWhile (fun s => decide (itimediff u s.sn > 0))) := by
+  have hb : (shrinkBuf (parseUna k u).1).snd_buf = k.snd_buf.dropWhile (fun s => decide (itimediff u s.sn > 0)) := by
+    rw [shrinkBuf_eq]; unfold parseUna; simp only []; exact drop_unaCount u k.snd_buf
+  refine ⟨hb, ?_, ?_⟩
+  · rw [shrinkBuf_eq]
+    unfold parseUna
+    simp only [drop_unaCount]
+    cases hd : k.snd_buf.dropWhile (fun s => decide (itimediff u s.sn > 0)) with
+    | nil => rfl
+    | cons s rest =>
+      refine ⟨rfl, ?_⟩
+      have := List.head?_dropWhile_not (fun s : Seg => decide (itimediff u s.sn > 0)) k.snd_buf
+      rw [hd] at this
+      simpa using this
+  · intro regular wnd
+    unfold inPre
+    rw [shrinkBuf_eq]; unfold parseUna; simp only [drop_unaCount]
+    cases regular <;> rfl
+
+/-! ### `heap_top_advances` -/
+
+/-- The move loop runs to a fixpoint: afterwards the head of `rcv_buf`, if it is the next expected
+segment, is blocked only by a full delivery queue.  `MoveFix` (Lemmas/KcpLive.lean) is that
+statement about a connection; it is established by `moveReady`, hence by every successful `Recv`
+and by every `parse_data` that stores or sees a duplicate, and kept by the remaining branches. -/
+theorem C02_heap_top_advances (wnd : Nat) (buf q : List Seg) (nxt : U32) (k : Kcp) (s : Seg) (buflen : Nat) :
+    (∀ h rest, (moveLoop wnd buf q nxt).buf = h :: rest → h.sn = (moveLoop wnd buf q nxt).nxt →
+        (moveLoop wnd buf q nxt).q.length ≥ wnd) ∧
+    MoveFix (moveReady k) ∧
+    (MoveFix k → MoveFix (parseData k s).k) ∧
+    ((parseData k s).rep = false → (parseData k s).panic = false → MoveFix (parseData k s).k) ∧
+    (MoveFix k → MoveFix (recv k buflen).k) ∧
+    ((recv k buflen).n ≥ 0 → MoveFix (recv k buflen).k) := by
+  refine ⟨moveLoop_fix wnd buf q nxt, moveReady_fix k, parseData_fix k s, ?_, recv_fix k buflen, recv_ok_fix k buflen⟩
+  intro hr hp
+  unfold parseData at hr hp ⊢
+  split
+  · rename_i h; rw [if_pos h] at hr; simp at hr
+  · rename_i h1; rw [if_neg h1] at hr hp
+    split
+    · exact moveReady_fix _
+    · rename_i h2; rw [if_neg h2] at hr hp
+      split
+      · rename_i h; rw [if_pos h] at hp; simp at hp
+      · exact moveReady_fix _
+
+/-- non-vacuity: a blocked head (queue full) and a moved head -/
+example : (moveLoop 1 [{ sn := 5 }, { sn := 6 }] [] 5).buf = [{ sn := 6 }] ∧
+    (moveLoop 1 [{ sn := 5 }, { sn := 6 }] [] 5).nxt = 6 := by decide
+
+/-! ### `dead_link_only_flag` -/
+
+/-- The dead-link flag `state` is written by phase 5 but read by nothing: changing it in the input
+state changes nothing but `state` in the result of `flush`, `input`, `recv`, `send`, the setters,
+`update`, and nothing at all in what they return or send. -/
+theorem C02_dead_link_only_flag (k : Kcp) (v : U32) :
+    (∀ full now,
+      (∃ w, (flush { k with state := v } full now).k = { (flush k full now).k with state := w }) ∧
+      (flush { k with state := v } full now).outs = (flush k full now).outs ∧
+      (flush { k with state := v } full now).interval = (flush k full now).interval ∧
+      (flush { k with state := v } full now).panic = (flush k full now).panic) ∧
+    (∀ data regular ackNoDelay now,
+      (∃ w, (input { k with state := v } data regular ackNoDelay now).k =
+        { (input k data regular ackNoDelay now).k with state := w }) ∧
+      (input { k with state := v } data regular ackNoDelay now).ret = (input k data regular ackNoDelay now).ret ∧
+      (input { k with state := v } data regular ackNoDelay now).outs = (input k data regular ackNoDelay now).outs ∧
+      (input { k with state := v } data regular ackNoDelay now).panic = (input k data regular ackNoDelay now).panic) ∧
+    (∀ buflen,
+      (∃ w, (recv { k with state := v } buflen).k = { (recv k buflen).k with state := w }) ∧
+      (recv { k with state := v } buflen).n = (recv k buflen).n ∧
+      (recv { k with state := v } buflen).data = (recv k buflen).data) ∧
+    (∀ buffer,
+      (∃ w, (send { k with state := v } buffer).k = { (send k buffer).k with state := w }) ∧
+      (send { k with state := v } buffer).ret = (send k buffer).ret ∧
+      (send { k with state := v } buffer).panic = (send k buffer).panic) ∧
+    (∀ now,
+      (∃ w, (update { k with state := v } now).k = { (update k now).k with state := w }) ∧
+      (update { k with state := v } now).outs = (update k now).outs ∧
+      (update { k with state := v } now).interval = (update k now).interval ∧
+      (update { k with state := v } now).panic = (update k now).panic) ∧
+    peekSize { k with state := v } = peekSize k ∧ waitSnd { k with state := v } = waitSnd k ∧
+    (∀ now, check { k with state := v } now = check k now) ∧
+    (∀ m, (∃ w, (setMtu { k with state := v } m).1 = { (setMtu k m).1 with state := w }) ∧
+      (setMtu { k with state := v } m).2 = (setMtu k m).2) ∧
+    (∀ s r, ∃ w, wndSize { k with state := v } s r = { wndSize k s r with state := w }) ∧
+    (∀ nd iv rs nc, ∃ w, noDelay { k with state := v } nd iv rs nc = { noDelay k nd iv rs nc with state := w }) := by
+  have h : KSE { k with state := v } k := ⟨v, rfl⟩
+  exact ⟨fun full now => flush_se h full now, fun data regular ackNoDelay now => input_se h data regular ackNoDelay now,
+    fun n => recv_se h n, fun b => send_se h b, fun now => update_se h now, (misc_se h).1, (misc_se h).2.1, (misc_se h).2.2.1,
+    (misc_se h).2.2.2.1, (misc_se h).2.2.2.2.1, (misc_se h).2.2.2.2.2⟩
+
+/-- non-vacuity: `state` IS written — a segment at the dead-link threshold sets it -/
+example : (emit { k := Kcp.new 1 } { xmit := 20 }).k.state = 0xFFFFFFFF#32 := by decide
+
+/-! ### `retx_armed` as an invariant of reachable states
+
+`Op`, `step`, `run` (Lemmas/KcpLiveOps.lean): the state-changing operations with all their arguments.
+`TimerInv k` (Lemmas/KcpTimer.lean): every segment of `snd_buf` that has been sent (`xmit ≠ 0`) has
+`resendts = ts + rto`, and no segment of `snd_queue` has been sent. -/
+
+/-- `TimerInv` is kept by every operation with arbitrary arguments (any datagram bytes, any clock
+value, any buffer) and holds in every state reachable from `NewKCP`. -/
+theorem C02_retx_timer_invariant (conv : U32) (ops : List Op) (k : Kcp) (op : Op) :
+    (TimerInv k → TimerInv (step k op)) ∧ TimerInv (Kcp.new conv) ∧ TimerInv (run (Kcp.new conv) ops) :=
+  ⟨step_timer k op, new_timer conv, run_timer _ ops (new_timer conv)⟩
+
+/-- Hence in every reachable state, for every sent segment of `snd_buf` — un-acked or not — and every
+clock value `now` that is not before the segment's last transmission: the time left on its timer
+is `rto − (now − ts)`, so `itimediff resendts now ≤ rto`: a retransmission is never further away
+than the segment's own rto.  Side condition explicit: `rto < 2^31`. -/
+theorem C02_retx_armed_reachable (conv : U32) (ops : List Op) (s : Seg) (now : U32)
+    (hs : s ∈ (run (Kcp.new conv) ops).snd_buf) (hx : s.xmit ≠ 0) (hr : s.rto.toNat < 2 ^ 31)
+    (hn : itimediff now s.ts ≥ 0) :
+    s.resendts = s.ts + s.rto ∧
+    itimediff s.resendts now = (s.rto.toNat : Int) - itimediff now s.ts ∧
+    itimediff s.resendts now ≤ s.rto.toNat := by
+  have ht := (run_timer _ ops (new_timer conv)).1 s hs hx
+  exact ⟨ht, timer_remaining s now ht hr hn⟩
+
+/-- non-vacuity: Send, a first flush (cwnd is still 0: nothing admitted), a second full flush at 200:
+the segment is in `snd_buf` with `xmit = 1`, `ts = 200`, `rto = 200`, `resendts = 400` -/
+example : (run (Kcp.new 1) [.send [1, 2, 3], .flush true 100, .flush true 200]).snd_buf.map
+    (fun s => (s.xmit, s.ts, s.rto, s.resendts)) = [(1, 200, 200, 400)] := by decide
+
+/-- The `retx_armed` statement in full for reachable states: after a full flush at `now` of any state
+reachable from `NewKCP`, every un-acked segment of `snd_buf` that has been sent has
+`0 < itimediff resendts now ≤ rto` — its retransmission is pending and at most one `rto` away.
+Explicit side conditions: `0 < rto < 2^31`; the clock value `now` is not before the segment's last
+transmission time `ts` in the signed 32-bit comparison (no other assumption on clock values in
+the history); `xmit` has not wrapped to 0. -/
+theorem C02_retx_armed_after_flush (conv : U32) (ops : List Op) (now : U32) (s' : Seg)
+    (hs : s' ∈ (flush (run (Kcp.new conv) ops) true now).k.snd_buf) (ha : s'.acked = false) (hx : s'.xmit ≠ 0)
+    (h0 : 0 < s'.rto.toNat) (hr : s'.rto.toNat < 2 ^ 31) (hn : itimediff now s'.ts ≥ 0) :
+    0 < itimediff s'.resendts now ∧ itimediff s'.resendts now ≤ s'.rto.toNat := by
+  have hreach : (flush (run (Kcp.new conv) ops) true now).k = run (Kcp.new conv) (ops ++ [.flush true now]) := by
+    rw [run_append]; rfl
+  have ht : s'.resendts = s'.ts + s'.rto := by
+    rw [hreach] at hs
+    exact (run_timer _ _ (new_timer conv)).1 s' hs hx
+  have hnd := ((C02_retx_armed (run (Kcp.new conv) ops) now).2.2.2.1 s' hs ha h0 hr).1
+  have hrem := timer_remaining s' now ht hr hn
+  have hanti := timer_antisymm s' now ht hr hn
+  refine ⟨?_, hrem.2⟩
+  omega
+
+/-! ### `heap_top_advances` as an invariant of reachable states -/
+
+/-- `MoveFix` — a deliverable head of `rcv_buf` is blocked only by a full delivery queue — is kept by
+every operation with arbitrary arguments and holds in every state reachable from `NewKCP`.  The
+only hypothesis (`wndOk`, `True` for all other operations): `WndSize` does not ENLARGE `rcv_wnd`
+while segments are buffered (settings before traffic); after such a call the head stays in
+`rcv_buf` until the next `Recv`/`parse_data` runs the move loop. -/
+theorem C02_heap_top_reachable (conv : U32) (ops : List Op) (k : Kcp) (op : Op) :
+    (MoveFix k → wndOk k op → MoveFix (step k op)) ∧
+    (runWndOk (Kcp.new conv) ops → MoveFix (run (Kcp.new conv) ops)) :=
+  ⟨step_fix k op, run_fix _ ops (new_fix conv)⟩
+
+/-- the hypothesis is needed: enlarging the window with a deliverable head in `rcv_buf` -/
+example : ¬ MoveFix (wndSize
+    { Kcp.new 1 with rcv_wnd := 1, rcv_nxt := 1, rcv_queue := [{ sn := 0 }], rcv_buf := [{ sn := 1 }] } 0 2) := by
+  intro h
+  have := h { sn := 1 } [] rfl rfl
+  revert this
+  decide
 
 end KcpVerif.Props
